@@ -611,6 +611,9 @@ fn with_arg_l1<T: Sub>(rtag: &str, op: &str, a: &[&str]) -> String
 where
     T: for<'a> TryFrom<&'a Bvd> + for<'a> TryFrom<&'a Bv>,
     T: for<'a> TryFrom<&'a Bvf<u8, 1>> + for<'a> TryFrom<&'a Bvf<u8, 3>> + for<'a> TryFrom<&'a Bvf<u16, 2>>,
+    T: for<'a> TryFrom<&'a Bvf<u8, 17>> + for<'a> TryFrom<&'a Bvf<u16, 5>>,
+    for<'a> <T as TryFrom<&'a Bvf<u8, 17>>>::Error: std::fmt::Debug,
+    for<'a> <T as TryFrom<&'a Bvf<u16, 5>>>::Error: std::fmt::Debug,
     T: for<'a> TryFrom<&'a Bvf<u32, 1>> + for<'a> TryFrom<&'a Bvf<u32, 3>> + for<'a> TryFrom<&'a Bvf<u64, 1>>,
     T: for<'a> TryFrom<&'a Bvf<u64, 2>> + for<'a> TryFrom<&'a Bvf<u64, 3>> + for<'a> TryFrom<&'a Bvf<u128, 1>>,
     T: for<'a> TryFrom<&'a Bvf<u128, 2>> + for<'a> TryFrom<&'a Bvf<usize, 2>>,
@@ -635,6 +638,7 @@ fn cmp_l1<L: Sub>(rtag: &str, a: &[&str]) -> String
 where
     L: PartialEq<Bvd> + PartialOrd<Bvd> + PartialEq<Bv> + PartialOrd<Bv>,
     L: PartialEq<Bvf<u8, 1>> + PartialOrd<Bvf<u8, 1>> + PartialEq<Bvf<u8, 3>> + PartialOrd<Bvf<u8, 3>>,
+    L: PartialEq<Bvf<u8, 17>> + PartialOrd<Bvf<u8, 17>> + PartialEq<Bvf<u16, 5>> + PartialOrd<Bvf<u16, 5>>,
     L: PartialEq<Bvf<u16, 2>> + PartialOrd<Bvf<u16, 2>> + PartialEq<Bvf<u32, 1>> + PartialOrd<Bvf<u32, 1>>,
     L: PartialEq<Bvf<u32, 3>> + PartialOrd<Bvf<u32, 3>> + PartialEq<Bvf<u64, 1>> + PartialOrd<Bvf<u64, 1>>,
     L: PartialEq<Bvf<u64, 2>> + PartialOrd<Bvf<u64, 2>> + PartialEq<Bvf<u64, 3>> + PartialOrd<Bvf<u64, 3>>,
